@@ -128,7 +128,7 @@ struct EncWorld : World {
 		p.set("mode", r.chance(1, 3) ? 1 : 0);       // 0 direct window, 1 mpt_array_push
 		// array mode only: a first message of this many bytes is pushed, taken and consumed through the C++ encode_array interface before the message proper
 		p.set("prelude", r.chance(1, 2) ? 0 : (r.chance(1, 2) ? r.range(1, 64) : r.range(64, 400)));
-		p.set("preflags", r.below(16));       // bit 0: push the first message as a two-fragment mpt::message, bit 1: compact (shift(0)) after consuming, bit 2: consume in two steps, bit 3: a copy of the array exists while half of the first frame still waits (the buffer is shared when the next message is pushed)
+		p.set("preflags", r.below(64));       // bit 0: push the first message as a two-fragment mpt::message, bit 1: compact (shift(0)) after consuming, bit 2: consume in two steps, bit 3: a copy of the array exists while half of the first frame still waits (the buffer is shared when the next message is pushed), bit 4: the message proper is dropped once after its first accepted push and started again, bit 5: part of its finished blocks is taken before the drop (which then has to be refused)
 		p.set("win0", r.chance(1, 2) ? 0 : edgy(r, 300));
 		p.set("inc", r.chance(1, 2) ? r.range(1, 3) : r.range(1, 64)); // drain grant increment
 		p.set("mis", r.range(0, 15));
@@ -335,7 +335,7 @@ struct EncWorld : World {
 
 	void run_array(const Plan &p, int framing, const Bytes &msg, size_t inc, Bytes &frame, Log &log, Stats &st) {
 		encode_array arr(encoder_for(framing));
-		size_t pos = 0; bool finished = false, compacted_midway = false;
+		size_t pos = 0; bool finished = false, compacted_midway = false, dropped_once = false; size_t taken_bytes = 0; Bytes taken;
 		// ---- an earlier message on the same array: encoded, taken through data(), consumed through shift()
 		size_t prelude = (size_t) std::min<int64_t>(std::max<int64_t>(p.get("prelude"), 0), 2000); unsigned pf = (unsigned) p.get("preflags");
 		if (prelude) {
@@ -403,6 +403,28 @@ struct EncWorld : World {
 			st.state(4, framing, (fired ? 4 : 0) + (r < 0 ? 0 : r == 0 ? 1 : (size_t) r < k ? 2 : 3));
 			if (k && r > 0) pos += (size_t) r;
 			if (!k && r >= 0) finished = true;
+			if ((pf & 16) && framing != ref::COMMAND && k && r > 0 && !dropped_once && !((pf & 8) && prelude)) {
+				// the message in progress is dropped: that succeeds while all of it is still in the array (it then starts again from its first byte),
+				// and is refused, with nothing changed, once some of its finished blocks have been taken
+				dropped_once = true;
+				size_t take = (pf & 32) ? std::min<size_t>(arr._state.done, 1 + pos % 100) : 0; bool took = false;
+				if (take) { span<const uint8_t> dd; { Sut s; dd = arr.data(); } if ((size_t) dd.size() >= take) taken.assign(dd.begin(), dd.begin() + take); { Sut s; took = arr.shift(take); } if (!took) taken.clear(); }
+				encode_state before = arr._state;
+				ssize_t d; { Sut s; SUT_GUARD_ABORT(d = mpt_array_push(&arr, 1, 0)); }
+				buffer *b2 = arr._d._buf.instance(); size_t used2 = b2 ? b2->_used : 0;
+				log.ev("ADROP after %zu bytes (%zu finished bytes taken) -> %zd done=%zu scratch=%zu used=%zu", pos, took ? take : (size_t) 0, d, arr._state.done, arr._state.scratch, used2);
+				st.hit(took ? "op:DROP_AFTER_TAKE" : "op:DROP");
+				if (arr._state.done + arr._state.scratch > used2) fail("state-bounds", "after a drop request: done=%zu scratch=%zu used=%zu", arr._state.done, arr._state.scratch, used2);
+				if (took) {
+					if (d >= 0) fail("abort-merged", "%s: a message whose first %zu finished bytes were already taken was reported as dropped", ref::framing_name(framing), take);
+					if (arr._state.done != before.done || arr._state.scratch != before.scratch || arr._state._ctx != before._ctx) fail("state-bounds", "a refused drop changed the encoder state (done %zu -> %zu, scratch %zu -> %zu)", (size_t) before.done, (size_t) arr._state.done, (size_t) before.scratch, (size_t) arr._state.scratch);
+					taken_bytes = take;
+				} else {
+					if (d < 0) fail("refused-valid", "%s: dropping a message of which nothing had been taken failed (%zd)", ref::framing_name(framing), d);
+					if (arr._state.done || arr._state.scratch) fail("state-bounds", "after dropping the only message: done=%zu scratch=%zu", (size_t) arr._state.done, (size_t) arr._state.scratch);
+					pos = 0;
+				}
+			}
 			if (prelude && (pf & 2) && k && r > 0 && !compacted_midway) {
 				// move the live part (finished data + open block) to the front while a message is in progress: nothing may change for the encoder
 				compacted_midway = true;
@@ -439,6 +461,7 @@ struct EncWorld : World {
 		// the finished data sits in front of the open block at the end of the used area (consumed frames may precede it)
 		const uint8_t *base = (const uint8_t *) (b + 1) + (b->_used - done - arr._state.scratch);
 		frame.assign(base, base + done);
+		if (taken_bytes) frame.insert(frame.begin(), taken.begin(), taken.end());      // the front of the frame was taken while the message was in progress
 		if (prelude) { span<const uint8_t> d; { Sut s; d = arr.data(); } if (d.size() != (long) done || (done && memcmp(d.begin(), base, done))) fail("state-bounds", "encode_array::data() does not describe the finished frame"); }
 	}
 };
